@@ -47,7 +47,9 @@ package swarm
 //@ noframe
 
 //@ func (s *Swarm) dialAddr
-//@ prop C01
+//@ prop C01 C04
+//@ ensures result1 != nil && called(Dial, 0) && ret(Dial, 0, 1) == nil ==> called(Close, 0) && arg(Close, 0, 0) == connC
+//@ ensures result1 != nil && called(DialWithUpdates, 0) && ret(DialWithUpdates, 0, 1) == nil ==> called(Close, 0) && arg(Close, 0, 0) == connC
 //@ ensures result1 == nil ==> result0 != nil && result0.RemotePeer() == p
 //@ ensures result1 == nil ==> (called(DialWithUpdates, 0) && arg(DialWithUpdates, 0, 3) == p && arg(DialWithUpdates, 0, 2) == addr) ||
 //@         (called(Dial, 0) && arg(Dial, 0, 3) == p && arg(Dial, 0, 2) == addr)
@@ -107,16 +109,17 @@ package swarm
 //@ noframe
 
 //@ func (s *Swarm) removeConn
-//@ prop C12 C06
+//@ prop C12 C06 C04
 //@ trusted
-//@ noframe
+//@ modifies contents(s.conns.m), elems(_)
 
 //@ func (c *Conn) Close
 //@ prop C04 C12
 //@ noframe
 
 //@ func (s *Swarm) addConn
-//@ prop C06 C10 C12
+//@ prop C06 C10 C12 C04
+//@ ensures result1 != nil ==> ghost.closed(tc)
 //@ ensures result1 == nil ==> result0 != nil && result0.conn == tc && result0.stat.Limited == isLimited
 //@ ensures result1 == nil && s.gater != nil ==> called(InterceptUpgraded, 0) && ret(InterceptUpgraded, 0, 0)
 //@ ensures called(InterceptUpgraded, 0) && !ret(InterceptUpgraded, 0, 0) ==> result1 != nil && called(CloseWithError, 0) && arg(CloseWithError, 0, 0) == tc && !called(AddConn, 0)
